@@ -201,8 +201,8 @@ func mergeConfigDict(opts *options, to, from *Config) Error {
 		if err != nil {
 			return err
 		}
-		if mergedInPlace(old, merged) {
-			continue // old (and every handle to it) holds the merged contents
+		if stored, ok := to.fields.get(k); ok && mergedInPlace(stored, merged) {
+			continue // the setting (and every handle to it) holds the merged contents
 		}
 
 		to.fields.set(k, merged.cpy(ctx))
